@@ -26,7 +26,12 @@ def judge_results(prop, pairs, prefixes=None):
     hashes = set()
     nontrivial = set()
     proto_drift = []
+    info_drift = []
+    ninfo = collections.Counter()
     for (case, res), v in zip(pairs, verdicts):
+        for e in res["item"]["ev"]:
+            if e["k"] == "CB" and e.get("f") in ("get_progress", "get_related_entities"):
+                ninfo[e["f"] + (":" + e["shape"] if "shape" in e else "")] += 1
         hsh = checklib.trace_hash(res["item"])
         hashes.add(hsh)
         if sum(1 for e in res["item"]["ev"] if e["k"] == "SB") >= 2:
@@ -42,6 +47,9 @@ def judge_results(prop, pairs, prefixes=None):
             # a request to a simulator that shutdown() has already stopped: that one is the known consequence of D12.)
             if clause.startswith("PR_") and not (clause == "PR_request_after_stop" and res["outcome"]["r"] != "ok"):
                 proto_drift.append({"clause": clause, "case": case.get("id"), "event": l})
+            # information-request layer (IR_*: get_progress / get_related_entities): not a listed property either - drift
+            if clause.startswith("IR_"):
+                info_drift.append({"clause": clause, "case": case.get("id"), "event": l, "detail": (v["detail"] or "")[:400] if v["viol"][0] == (l, clause) else ""})
             if clause.startswith(prefixes) and clause not in seen:
                 seen.add(clause)
                 detail = v["detail"] if v["viol"] and v["viol"][0] == (l, clause) else None
@@ -49,7 +57,12 @@ def judge_results(prop, pairs, prefixes=None):
     stats["events"] = sum(len(i["ev"]) for i in items)
     for d in proto_drift[:3]:
         print(f"DRIFT request protocol clause={d['clause']} case={json.dumps(d['case'])[:120]} event={d['event']} (code and specification MosaikRef/ProtoStep differ; not a verdict)")
+    for d in info_drift[:3]:
+        print(f"DRIFT information requests clause={d['clause']} case={json.dumps(d['case'])[:120]} event={d['event']} {d['detail'][:200]} (code and specification MosaikRef/RefInfo differ; not a verdict)")
     return findings, {
+        "info_requests": dict(ninfo),
+        "info_drift": info_drift[:10],
+        "info_drift_count": len(info_drift),
         "executions": len(items),
         "distinct_traces": len(hashes),
         "distinct_nontrivial": len(nontrivial),
